@@ -20,7 +20,13 @@ struct LEntry {
 };
 typedef std::vector<LEntry> EList;
 
-enum Build { B_SETTERS, B_PARSE, B_NEWKEYFILE_EMPTY, B_INIFILE_EMPTY, B_OPTIONS_EMPTY, B_PARSED_EMPTY };
+enum Build { B_SETTERS, B_PARSE, B_NEWKEYFILE_EMPTY, B_INIFILE_EMPTY, B_OPTIONS_EMPTY, B_PARSED_EMPTY,
+             B_READCONFIG,  // the printed file read through econf_readConfig (PARSING_DIRS): a layered-read result
+             B_MERGED };    // the setter-built object merged over an empty one: a merge result as input
+
+// key-less section headers added to the printed form of an input (parsed builds only): (entry index the header
+// is printed in front of, or the list's length for "at the end"; section name). [0] base, [1] override.
+static std::vector<std::pair<size_t, std::string>> g_extra_hdr[2];
 
 static bool has_dup(const EList &l) {
   for (size_t i = 0; i < l.size(); i++)
@@ -52,9 +58,17 @@ static bool reopens(const EList &l) {
   return false;
 }
 
-static std::string print_list(const EList &l) {
+static std::string print_list(const EList &l, int tag = -1) {
   std::string t, cur;
-  for (auto &e : l) {
+  for (size_t ei = 0; ei <= l.size(); ei++) {
+    if (tag >= 0)
+      for (auto &xh : g_extra_hdr[tag])
+        if (xh.first == ei && (ei == l.size() || (!l[ei].sec.empty() && l[ei].sec != xh.second))) {
+          t += "[" + xh.second + "]\n";
+          cur = xh.second;
+        }
+    if (ei == l.size()) break;
+    const LEntry &e = l[ei];
     if (e.sec != cur) {
       t += "[" + e.sec + "]\n";
       cur = e.sec;
@@ -80,6 +94,7 @@ static std::string print_list(const EList &l) {
   return t;
 }
 
+static std::string show_list_fwd(const std::vector<LEntry> &l);
 // realise a list through the public API; returns nullptr if not realisable in the requested way
 static econf_file *realise(const EList &l, Build how, int tag) {
   econf_file *kf = nullptr;
@@ -97,10 +112,30 @@ static econf_file *realise(const EList &l, Build how, int tag) {
     case B_PARSE:
     case B_PARSED_EMPTY: {
       std::string path = g_scr.dir + "/in" + std::to_string(tag) + ".conf";
-      write_file(path, how == B_PARSED_EMPTY ? std::string() : print_list(l));
+      write_file(path, how == B_PARSED_EMPTY ? std::string() : print_list(l, tag));
       e = econf_readFile(&kf, path.c_str(), "=", "#");
       VF_CHECK(e == ECONF_SUCCESS && kf, "harness", "readFile of a generated input failed rc=" << e);
       return kf;
+    }
+    case B_READCONFIG: {
+      std::string dir = g_scr.dir + "/rc" + std::to_string(tag);
+      mkdir_p(dir);
+      write_file(dir + "/vfm.conf", print_list(l, tag));
+      e = econf_newKeyFile_with_options(&kf, ("PARSING_DIRS=" + dir).c_str());
+      VF_CHECK(e == ECONF_SUCCESS && kf, "harness", "newKeyFile_with_options failed rc=" << e);
+      e = econf_readConfig(&kf, nullptr, nullptr, "vfm", "conf", "=", "#");
+      VF_CHECK(e == ECONF_SUCCESS && kf, "harness", "readConfig of a generated input failed rc=" << e);
+      return kf;
+    }
+    case B_MERGED: {
+      econf_file *a = realise(l, B_SETTERS, tag), *b = nullptr, *m = nullptr;
+      e = econf_newKeyFile(&b, '=', '#');
+      VF_CHECK(e == ECONF_SUCCESS && b, "harness", "newKeyFile failed");
+      e = econf_mergeFiles(&m, a, b);
+      econf_freeFile(a);
+      econf_freeFile(b);
+      VF_CHECK(e == ECONF_SUCCESS && m, "merge-failed", "merge of " << show_list_fwd(l) << " over an empty object rc=" << e);
+      return m;
     }
     case B_NEWKEYFILE_EMPTY:
       e = econf_newKeyFile(&kf, '=', '#');
@@ -118,6 +153,8 @@ static econf_file *realise(const EList &l, Build how, int tag) {
   return nullptr;
 }
 
+static std::string show_list(const EList &l);
+static std::string show_list_fwd(const std::vector<LEntry> &l) { return show_list(l); }
 static std::string show_list(const EList &l) {
   std::string r = "[";
   for (auto &e : l) r += "(" + (e.sec.empty() ? std::string("-") : esc(e.sec)) + "." + esc(e.key) + "=" + esc(e.val) + ")";
@@ -280,6 +317,16 @@ static void check_pair(const EList &bl, Build bh, const EList &ol, Build oh) {
     std::vector<std::string> want = sections_of(bl);
     for (auto &x : sections_of(ol))
       if (std::find(want.begin(), want.end(), x) == want.end()) want.push_back(x);
+    // a section the base opens without any key and the override fills: the statement does not say whether it counts
+    // as the base's (position of the header) or as override-only (last) - its position is not judged
+    {
+      std::vector<std::string> bsec = sections_of(bl);
+      for (auto &xh : g_extra_hdr[0])
+        if (std::find(bsec.begin(), bsec.end(), xh.second) == bsec.end()) {
+          want.erase(std::remove(want.begin(), want.end(), xh.second), want.end());
+          rsecs.erase(std::remove(rsecs.begin(), rsecs.end(), xh.second), rsecs.end());
+        }
+    }
     VF_CHECK(rsecs == want, "section-order", ctx << ": key-bearing sections of the result are not base order + override-only" << shown);
     // group-less first (observable through the writer: a group-less key emitted after a header changes section)
     if (e2 == ECONF_SUCCESS) {
@@ -488,12 +535,65 @@ static void run(Src &s) {
   fix(ol);
   pick_build(bl, bh);
   pick_build(ol, oh);
+  // how the inputs come into being: setters, a parsed file, a layered-read result (econf_readConfig), a merge result
+  g_extra_hdr[0].clear();
+  g_extra_hdr[1].clear();
+  auto vary = [&](EList &l, Build &how, int tag) {
+    static const std::vector<std::string> hsecs = {"A", "B", "Sec C", "D", "E", "F"};
+    bool gl = groupless_leading(l);
+    if (how == B_PARSE) {
+      if (s.chance(40)) how = B_READCONFIG;
+    } else {
+      size_t w = s.weighted({40, 25, 20, 15});
+      if (w == 1 && gl) how = B_PARSE;
+      if (w == 2 && gl) how = B_READCONFIG;
+      if (w == 3) {
+        // a merge result lists its entries section by section
+        EList m;
+        for (auto &e : l)
+          if (e.sec.empty()) m.push_back(e);
+        for (auto &sn : sections_of(l))
+          for (auto &e : l)
+            if (e.sec == sn) m.push_back(e);
+        l.swap(m);
+        how = B_MERGED;
+      }
+    }
+    if ((how == B_PARSE || how == B_READCONFIG) && s.chance(35)) {
+      int n = 1 + (int)s.below(2);
+      for (int i = 0; i < n; i++) {
+        size_t pos = s.below((uint32_t)l.size() + 1);
+        const std::string &nm = hsecs[s.below(6)];
+        // not in front of a group-less entry (it would adopt it) nor of an entry of the same section
+        if (pos == l.size() || (!l[pos].sec.empty() && l[pos].sec != nm)) g_extra_hdr[tag].push_back({pos, nm});
+      }
+      if (!g_extra_hdr[tag].empty()) g_case.tag(tag == 0 ? "base_keyless_header" : "override_keyless_header");
+    }
+  };
+  vary(bl, bh, 0);
+  vary(ol, oh, 1);
+  {
+    // a header the base opens without keys for a section in which the override has keys
+    std::vector<std::string> bsec = sections_of(bl), osec = sections_of(ol);
+    for (auto &xh : g_extra_hdr[0])
+      if (std::find(bsec.begin(), bsec.end(), xh.second) == bsec.end() && std::find(osec.begin(), osec.end(), xh.second) != osec.end())
+        g_case.tag("base_keyless_section_filled_by_override");
+  }
   // a parsed multi-line value is stored with its indentation; setter-built keeps it as given: same text here
   tag_pair_classes(bl, ol);
-  g_case.tag(bh == B_PARSE ? "base_parsed" : "base_setters");
-  g_case.tag(oh == B_PARSE ? "override_parsed" : "override_setters");
-  g_case.desc = "base=" + show_list(bl) + " override=" + show_list(ol);
+  static const char *BN[8] = {"setters", "parsed", "", "", "", "", "readconfig", "merged"};
+  g_case.tag(std::string("base_") + BN[bh]);
+  g_case.tag(std::string("override_") + BN[oh]);
+  auto hdrs = [](int tag) {
+    std::string r;
+    for (auto &xh : g_extra_hdr[tag]) r += " +[" + xh.second + "]@" + std::to_string(xh.first);
+    return r;
+  };
+  g_case.desc = "base=" + show_list(bl) + " (" + BN[bh] + hdrs(0) + ") override=" + show_list(ol) + " (" + BN[oh] + hdrs(1) + ")";
   uint64_t h = 5;
+  h = fnv_u64((uint64_t)bh * 16 + (uint64_t)oh, h);
+  for (int tg = 0; tg < 2; tg++)
+    for (auto &xh : g_extra_hdr[tg]) h = fnv(xh.second, fnv_u64(xh.first * 2 + (uint64_t)tg, h));
   for (auto &e : bl) h = fnv(e.sec + "." + e.key, h);
   h = fnv_u64(1, h);
   for (auto &e : ol) h = fnv(e.sec + "." + e.key, h);
